@@ -10,18 +10,18 @@ CFG = {
     "gen": ["statejournal"],
     "trivial_outputs": ["panic"],
     "timeout": {"quick": 900, "thorough": 6000},
-    "rule": "one case = one history on the real state.StateDB over state.NewDatabase(MemDatabase): 240 directed histories (the interleavings named "
+    "rule": "one case = one history on the real state.StateDB over state.NewDatabase(MemDatabase): 272 directed histories (the interleavings named "
             "in the property record: revert across self-destruct of a re-created account, suicide/finalise/re-create/revert, RIPEMD touch, storage "
             "set/clear, CreateAccount balance carry-over, copy independence, refund wrap-around, nested log/preimage reverts) with random "
             "continuation + 1800 random histories of 10-60 actions (thorough: 2400 + 60000, up to 80) drawn from create, add/sub/set balance, "
             "set nonce, set code, set/clear storage, self-destruct, touch, log, refund, preimage, Prepare, snapshot, revert to any live id, "
             "Finalise/IntermediateRoot/Commit with per-history uniform or mixed delete-empty flag, Reset/reopen at any committed root, Copy, "
-            "swap to the copy, net-effect replay; value lattice 0,1,2^64-1,2^64,2^255,2^256-1; a malformed stream (dead revert ids, overdrafts, "
+            "opening further instances at a committed root over the same state.Database (up to 3 live instances, rotated and interleaved), net-effect replay; value lattice 0,1,2^64-1,2^64,2^255,2^256-1; a malformed stream (dead revert ids, overdrafts, "
             "negative amounts, use after Commit); 35% of the histories are 'cold-cache' (getters read only at Finalise/IntermediateRoot/Commit/end, so "
             "values never read through the StateDB stay uncached). After every action (cold: at the checkpoints) every getter of 5 accounts x 3 slots, refund, logs, preimages, the dirty "
             "set, callback flags and journal/revision lengths are compared with the Lean model; the real code is judged directly (J1 revert "
             "restores the recorded view, J2 root = root of a plain trie built from the reported content, J3 reopen/Reset read back, J4 copy "
-            "reads back and is independent, J6 the history with reverted segments erased gives the same view and root). Non-trivial = the "
+            "reads back and every live instance is unchanged by what the others did, J7 an untouched reopened instance reads its root's content and returns its root, J6 the history with reverted segments erased gives the same view and root). Non-trivial = the "
             "history did not end in a panic (distinct histories counted).",
     "tie": {"StateDB mutators, journal undo, Snapshot/RevertToSnapshot, Finalise, IntermediateRoot, Commit, Copy, Reset, New": "corr (Go vs Model.State, getters + dirty set + callback flags + journal length after every action)",
             "journal append / raw setter call-site inventory of core/state": "gen (go/ast dump -> Aqv.Gen.StateJournal, theorem journalled_mutators_as_modelled)",
